@@ -33,6 +33,7 @@ import (
 
 	"go.opentelemetry.io/collector/pdata/plog/plogotlp"
 	"go.opentelemetry.io/collector/pdata/pmetric/pmetricotlp"
+	"go.opentelemetry.io/collector/pdata/pprofile/pprofileotlp"
 	"go.opentelemetry.io/collector/pdata/ptrace/ptraceotlp"
 )
 
@@ -71,6 +72,7 @@ type c15Fake struct {
 	// grpc
 	code    uint32
 	hasRI   bool
+	riUnset bool // RetryInfo{} : present, retry_delay unset
 	ri      time.Duration
 	partial bool
 }
@@ -109,6 +111,20 @@ type c15FakeMetrics struct {
 	f *c15FakeServers
 }
 
+type c15FakeProfiles struct {
+	pprofileotlp.UnimplementedGRPCServer
+	f *c15FakeServers
+}
+
+func (s *c15FakeProfiles) Export(context.Context, pprofileotlp.ExportRequest) (pprofileotlp.ExportResponse, error) {
+	r := pprofileotlp.NewExportResponse()
+	if s.f.get().partial {
+		r.PartialSuccess().SetRejectedProfiles(7)
+		r.PartialSuccess().SetErrorMessage("c15 partial")
+	}
+	return r, s.f.grpcErr()
+}
+
 func (f *c15FakeServers) grpcErr() error {
 	s := f.get()
 	if s.code == 0 {
@@ -116,7 +132,11 @@ func (f *c15FakeServers) grpcErr() error {
 	}
 	st := status.New(codes.Code(s.code), "c15 fake")
 	if s.hasRI {
-		st, _ = st.WithDetails(&errdetails.RetryInfo{RetryDelay: durationpb.New(s.ri)})
+		info := &errdetails.RetryInfo{RetryDelay: durationpb.New(s.ri)}
+		if s.riUnset {
+			info = &errdetails.RetryInfo{}
+		}
+		st, _ = st.WithDetails(info)
 	}
 	return st.Err()
 }
@@ -162,6 +182,14 @@ func c15FakeBody(s c15Fake, path string) (ctype string, body []byte) {
 			r := plogotlp.NewExportResponse()
 			if partial {
 				r.PartialSuccess().SetRejectedLogRecords(3)
+				r.PartialSuccess().SetErrorMessage("c15 partial")
+			}
+			pb, _ = r.MarshalProto()
+			js, _ = r.MarshalJSON()
+		case strings.Contains(path, "profiles"):
+			r := pprofileotlp.NewExportResponse()
+			if partial {
+				r.PartialSuccess().SetRejectedProfiles(3)
 				r.PartialSuccess().SetErrorMessage("c15 partial")
 			}
 			pb, _ = r.MarshalProto()
@@ -245,6 +273,7 @@ func c15StartFakes(t *testing.T) *c15FakeServers {
 	plogotlp.RegisterGRPCServer(f.grpcSrv, &c15FakeLogs{f: f})
 	ptraceotlp.RegisterGRPCServer(f.grpcSrv, &c15FakeTraces{f: f})
 	pmetricotlp.RegisterGRPCServer(f.grpcSrv, &c15FakeMetrics{f: f})
+	pprofileotlp.RegisterGRPCServer(f.grpcSrv, &c15FakeProfiles{f: f})
 	go func() { _ = f.grpcSrv.Serve(lis) }()
 	t.Cleanup(f.grpcSrv.Stop)
 	return f
@@ -286,6 +315,9 @@ func c15GenFake(rnd interface{ IntN(int) int }) c15Fake {
 			s.hasRI = true
 			s.ri = []time.Duration{0, 1, -1, 500 * time.Millisecond, -500 * time.Millisecond, time.Second, 90 * time.Second, -90 * time.Second, 24 * 365 * time.Hour,
 				time.Duration(rnd.IntN(10_000_000)) * time.Microsecond}[rnd.IntN(10)]
+			if rnd.IntN(4) == 0 {
+				s.riUnset, s.ri = true, 0
+			}
 		}
 		return s
 	}
@@ -341,14 +373,18 @@ func c15RunFake(t *testing.T, out *vOut, f *c15FakeServers, s c15Fake, ci int, r
 	}
 	f.set(s)
 	e := f.exporter(t, s)
-	sig := c15Sigs[rnd.IntN(3)]
+	sig := c15AllSigs[rnd.IntN(4)]
 	p := c15MakePayload(sig, 1+rnd.IntN(3), false, fmt.Sprintf("fake-%d", ci))
+	out.Linef("stat fake_sig_%s 1", sig)
 	if s.tr == "grpc" {
 		ri := "-"
 		if s.hasRI {
 			ri = strconv.FormatInt(int64(s.ri), 10)
 		}
-		out.Linef("op xgrpc code=%d ri=%s partial=%d", s.code, ri, vB(s.partial))
+		out.Linef("op xgrpc code=%d ri=%s partial=%d rs=%d", s.code, ri, vB(s.partial), vB(s.hasRI && !s.riUnset))
+		if s.hasRI && s.riUnset {
+			out.Linef("stat fake_retryinfo_delay_unset 1")
+		}
 	} else {
 		out.Linef("op xhttp status=%d ra=%s body=%s enc=%s", s.status, c15RAToken(s), s.body, s.enc)
 	}
@@ -367,6 +403,8 @@ func c15RunFake(t *testing.T, out *vOut, f *c15FakeServers, s c15Fake, ci int, r
 			err = e.logs.ConsumeLogs(ctx, p.logs)
 		case "traces":
 			err = e.traces.ConsumeTraces(ctx, p.tr)
+		case "profiles":
+			err = e.prof.ConsumeProfiles(ctx, p.pr)
 		default:
 			err = e.metrics.ConsumeMetrics(ctx, p.m)
 		}
